@@ -723,8 +723,9 @@ def _visited_walk_for(ctx, fn, cfg, lp, ev, c):
 
 
 def schema_stream_parse(ctx, fn, cfg, lp, ev):
-    """guard `stream.tell() < size`; every back path completes a parse_stream(stream) of a struct with
-    a positive static prefix."""
+    """guard `stream.tell() < size`; every back path completes a parse_stream(stream) of a struct whose
+    total consumption is a term proven positive (static part + data-sized parts, with the guard that
+    makes the data-sized part positive checked in the adapter)."""
     loop = lp.stmt
     g = loop.test
     if not (isinstance(g, ast.Compare) and len(g.ops) == 1 and isinstance(g.ops[0], (ast.Lt, ast.LtE))):
@@ -735,29 +736,180 @@ def schema_stream_parse(ctx, fn, cfg, lp, ev):
     stream = dotted(l.func.value)
     if stream is None or not invariant_in_loop(g.comparators[0], loop):
         return None
-    from ..core.layout import Layouts, Unknown
     for kind, path, edge in cfg.iteration_paths(lp):
         if kind != "back":
             continue
         hit = False
+        why = "no parse_stream call on the path"
         for k, st, lab in simple_stmts_of(cfg, path):
             if k != "stmt":
                 continue
             for c in ast.walk(st):
                 if isinstance(c, ast.Call) and isinstance(c.func, ast.Attribute) and c.func.attr == "parse_stream" \
                         and c.args and dotted(c.args[0]) == stream and isinstance(c.func.value, ast.Name):
-                    try:
-                        lay = Layouts(ctx).of_name(fn._module, c.func.value.id)
-                        pref = lay.static_prefix()
-                    except Unknown as e:
-                        return False, "STREAM-PARSE", f"layout of `{c.func.value.id}` cannot be evaluated: {e}"
-                    if pref > 0:
+                    ok, why = _consumption_positive(ctx, fn._module, c.func.value.id)
+                    if ok:
                         hit = True
-                        ctx.fact("T1", "stream_parse_prefix", {c.func.value.id: pref})
         if not hit:
             lines = sorted({getattr(s, "lineno", 0) for _, s, _ in simple_stmts_of(cfg, path)})
-            return False, "STREAM-PARSE", f"back-edge path through lines {lines} does not consume a positive number of bytes from `{stream}`"
-    return True, "STREAM-PARSE", f"every back-edge path parses a struct with positive static prefix from `{stream}`"
+            return False, "STREAM-PARSE", f"back-edge path through lines {lines} is not proven to advance `{stream}`: {why}"
+    return True, "STREAM-PARSE", f"every back-edge path parses a record from `{stream}` whose consumption is a term proven positive"
+
+
+def _consumption_positive(ctx, mod, name):
+    """(ok, detail): the construct bound to `name` consumes a positive number of bytes whenever its
+    parse returns normally."""
+    from ..core.layout import Layouts, Unknown, Struct as LStruct, Wrap, Dyn, Zero, Prim
+    from ..core.symexec import run_paths
+    from .util import path_conds_struct
+    from ..core.terms import holds_at, NEG
+    L = Layouts(ctx)
+    try:
+        lay = L.of_name(mod, name)
+    except Unknown as e:
+        return False, f"layout of `{name}` cannot be evaluated: {e}"
+    adapters = []
+    cur = lay
+    while isinstance(cur, Wrap):
+        adapters.append(cur.tag)
+        cur = cur.inner
+    if not isinstance(cur, LStruct):
+        return False, "parsed construct is not a struct"
+    total = Term.const(0)
+    for fname, f in cur.fields:
+        z = f.size
+        if isinstance(z, int):
+            total = total + Term.const(z)
+            continue
+        core = f
+        while isinstance(core, Wrap):
+            core = core.inner
+        if isinstance(core, Dyn) and core.tag == "Bytes" and core.node is not None:
+            t = _size_term(ctx, L, core.node.args[0], core.env)
+            if t is None:
+                return False, f"size expression of field `{fname}` is not an affine term"
+            total = total + t
+            continue
+        if isinstance(core, (Zero,)):
+            continue
+        # adapter around a data-sized part (e.g. VolumesAdapter(.., Lazy(Bytes(..)))): look inside
+        inner = getattr(f, "inner", None)
+        return False, f"field `{fname}` has an unknown size ({f.desc()})"
+    # resolve Computed fields: this.a.b -> expression of struct a's Computed field b
+    for _ in range(4):
+        changed = False
+        for atom in sorted(total.atoms()):
+            if not atom.startswith("this."):
+                continue
+            parts = atom.split(".")[1:]
+            node = cur
+            prefix = []
+            ok = True
+            for pname in parts[:-1]:
+                fld = node.field(pname) if hasattr(node, "field") else None
+                if fld is None:
+                    ok = False
+                    break
+                node = fld.core() if hasattr(fld, "core") else fld
+                prefix.append(pname)
+            if not ok or not hasattr(node, "field"):
+                continue
+            leaf = node.field(parts[-1])
+            if isinstance(leaf, Zero) and leaf.tag == "Computed" and leaf.extra is not None:
+                expr = leaf.extra
+                t = _size_term(ctx, L, expr, leaf.env)
+                if t is None:
+                    continue
+                # re-root atoms of the nested struct
+                remap = {}
+                for a in t.atoms():
+                    if a.startswith("this."):
+                        remap[a] = Term.atom("this." + ".".join(prefix + [a[5:]]))
+                total = total.subst({atom: t.subst(remap)})
+                changed = True
+        if not changed:
+            break
+    if total.is_const():
+        return (total.value() > 0), f"constant consumption {total.value()}"
+    # positive multiple of one unsigned field that a guard keeps >= 1
+    if len(total.p) == 1:
+        (mono, coef), = total.p.items()
+        if coef > 0 and len(mono) == 1 and mono[0].startswith("this."):
+            field_path = mono[0][5:].split(".")
+            node = cur
+            for pname in field_path[:-1]:
+                fld = node.field(pname)
+                node = fld.core() if fld is not None else None
+                if node is None:
+                    return False, f"field {mono[0]} not found"
+            leaf = node.field(field_path[-1])
+            lc = leaf.core() if leaf is not None else None
+            if not (isinstance(lc, Prim) and lc.kind == "int" and lc.signed is False):
+                return False, f"consumption {total.key()} depends on `{mono[0]}` which is not an unsigned integer field"
+            # guard in the adapter's _parse: normal returns exclude field == 0
+            for tag in adapters:
+                for m2, q2, c2 in ctx.prog.all_classes():
+                    if c2.name != tag:
+                        continue
+                    pf = ctx.prog.find_method(c2, "_parse")
+                    if pf is None or pf._module is not c2._module and False:
+                        continue
+                    if pf is None:
+                        continue
+                    rets = [p for p in run_paths(ctx, pf, rule="T1") if p.end == "return"]
+                    if not rets:
+                        continue
+                    suffix = "." + ".".join(field_path)
+                    allok = True
+                    for p in rets:
+                        conds = path_conds_struct(ctx, pf, p)
+                        good = False
+                        for d, op, taken, _ in conds:
+                            ats = d.atoms()
+                            if len(ats) == 1 and list(ats)[0].endswith(suffix):
+                                if holds_at(d, op if taken else NEG[op], **{list(ats)[0]: 0}) is False:
+                                    good = True
+                        if not good:
+                            allok = False
+                    if allok:
+                        return True, f"consumes {total.key()} bytes; `{tag}._parse` returns only when that field is >= 1"
+                    return False, (f"consumes {total.key()} bytes but `{tag}._parse` has a normal return on which `{'.'.join(field_path)} == 0` is possible: "
+                                   f"a record of size 0 is accepted and the scan does not advance")
+            return False, f"consumes {total.key()} bytes and no adapter guards the field against 0"
+    return False, f"consumption {total.key()} is not proven positive"
+
+
+def _size_term(ctx, L, node, env):
+    """Term of a size expression (lambda this: ... / this.a * K / X.sizeof()) in the layout's environment"""
+    from ..core.layout import Unknown
+    mod = env.mod if env is not None else None
+
+    class Ev(Evaluator):
+        def _call(self_inner, n):
+            if isinstance(n.func, ast.Attribute) and n.func.attr == "sizeof" and not n.args:
+                try:
+                    v = L.const(n, env)
+                except Unknown:
+                    v = None
+                if isinstance(v, int):
+                    return Term.const(v)
+            return Evaluator._call(self_inner, n)
+
+        def child(self_inner, e, this_names=None):
+            c = Ev(e, self_inner.const_of, self_inner.func_of, this_names or self_inner.this_names, self_inner.depth + 1)
+            return c
+
+    body = node
+    names = {"this"}
+    if isinstance(node, ast.Lambda):
+        body = node.body
+        names = {a.arg for a in node.args.args} | {"this"}
+    ev = Ev(const_of=ctx.folder.const_of(mod) if mod is not None else None, this_names=names)
+    t = ev.ev(body)
+    for a in t.atoms():
+        if not a.startswith("this."):
+            return None
+    return t
 
 
 def schema_read_until_empty(ctx, fn, cfg, lp, ev):
